@@ -14,7 +14,19 @@
             builder's cells reordered at most; Proofs/SeriesHist.v: the second
             build is that of a fresh builder over all results).
     Runs of kind 2 may come from files read through Builder.AddFiles (the
-    result set is what the files say; a key a file does not set is empty).      *)
+    result set is what the files say; a key a file does not set is empty).
+    kind 5: the real cmd/benchseries binary with an option set
+            (5 results wf runs conf N refs (ji exit out libsums samejson samecsv));
+            results = the harness' reading of the files under the DOCUMENTED
+            meaning of the options; runs / refs as in kind 2 (the library with
+            the options the flags are documented to set, both policies);
+            out = what the JSON written by the command shows: per series unit,
+            benchmarks, series, hash pairs and per cell (bench series date
+            summary); libsums = the library's summaries (REPLACE, the flag's
+            confidence, 1000 bootstraps); samejson / samecsv: the command's
+            JSON file / standard output are byte for byte the library's.
+            ji = summaries of an earlier run were read back (-ji): existing /=
+            nil is outside the model, only the two byte comparisons are judged. *)
 From Perf Require Import Base.Bytes Base.Sx Base.B64 Base.SxF Base.Usort
      Model.Dates Model.Bootstrap Model.BootstrapSpec Model.Series Model.SeriesSpec.
 Local Open Scope Z_scope.
@@ -385,6 +397,101 @@ Definition inc_prop (wf : bool) (rs : list res) (runs : list srun) (rf : refs) (
         && sums_ok rf (mkRun (in_combine i) (in_order i) (in_out2 i) (in_sums2 i))
       else true).
 
+(** * the command (kind 5) *)
+Record pcell := mkPC { pc_bench : bytes; pc_ser : bytes; pc_date : bytes; pc_sum : outcome3 }.
+Record pseries := mkPS { ps_unit : bytes; ps_benchmarks : list bytes; ps_series : list bytes;
+                         ps_hp : list (bytes * (bytes * bytes)); ps_cells : list pcell }.
+
+Definition as_pcell (s : sx) : option pcell :=
+  match s with
+  | SL [SB b; SB sr; SB d; sm] => do sm <- as_out3 sm; Some (mkPC b sr d sm)
+  | _ => None
+  end.
+Definition as_pseries (s : sx) : option pseries :=
+  match s with
+  | SL [SB u; bl; sl; hp; cells] =>
+      do bl <- as_list as_b bl; do sl <- as_list as_b sl;
+      do hp <- as_list (fun x => match x with SL [SB a; SB b; SB c] => Some (a, (b, c)) | _ => None end) hp;
+      do cells <- as_list as_pcell cells;
+      Some (mkPS u bl sl hp cells)
+  | _ => None
+  end.
+(** [None] = the command failed (non-zero exit status / no readable JSON) *)
+Definition as_pout (s : sx) : option (option (list pseries)) :=
+  match s with
+  | SL [SZ 0; l] => do l <- as_list as_pseries l; Some (Some l)
+  | SL [SZ 1] => Some None
+  | _ => None
+  end.
+
+Record cmdobs := mkCmd { cm_ji : bool; cm_exit : Z; cm_out : option (list pseries);
+                         cm_libsums : option (list (list outcome3)); cm_samejson : bool; cm_samecsv : bool }.
+Definition as_cmd (s : sx) : option cmdobs :=
+  match s with
+  | SL [ji; SZ ex; out; ls; sj; sc] =>
+      do ji <- as_bool ji; do out <- as_pout out; do ls <- as_sums ls; do sj <- as_bool sj; do sc <- as_bool sc;
+      Some (mkCmd ji ex out ls sj sc)
+  | _ => None
+  end.
+
+Definition pcell_eqb (with_sums : bool) (a b : pcell) : bool :=
+  beq (pc_bench a) (pc_bench b) && beq (pc_ser a) (pc_ser b) && beq (pc_date a) (pc_date b)
+  && (negb with_sums || out3_same (pc_sum a) (pc_sum b)).
+Definition pseries_eqb (with_sums : bool) (a b : pseries) : bool :=
+  beq (ps_unit a) (ps_unit b) && blist_eqb (ps_benchmarks a) (ps_benchmarks b)
+  && blist_eqb (ps_series a) (ps_series b) && list_eqb hp_eqb (ps_hp a) (ps_hp b)
+  && list_eqb (pcell_eqb with_sums) (ps_cells a) (ps_cells b).
+
+(** what the command's JSON must show of a series whose cells have the given
+    summaries (cell by cell; a missing summary is "undefined") *)
+Fixpoint project_cells (cs : list ocell) (row : list outcome3) : list pcell :=
+  match cs with
+  | [] => []
+  | c :: cs' =>
+      mkPC (oc_bench c) (oc_ser c) (oc_date c) (match row with x :: _ => x | [] => O3undef end)
+      :: project_cells cs' (match row with _ :: r => r | [] => [] end)
+  end.
+Definition project_series (s : series) (row : list outcome3) : pseries :=
+  mkPS (se_unit s) (se_benchmarks s) (se_series s) (se_hp s) (project_cells (se_cells s) row).
+Fixpoint project_all (l : list series) (ss : list (list outcome3)) : list pseries :=
+  match l with
+  | [] => []
+  | s :: l' => project_series s (match ss with r :: _ => r | [] => [] end)
+               :: project_all l' (match ss with _ :: r => r | [] => [] end)
+  end.
+Definition sums_shape_ok (l : list series) (ss : list (list outcome3)) : bool :=
+  Nat.eqb (length l) (length ss)
+  && forall2b (fun s row => Nat.eqb (length (se_cells s)) (length row)) l ss.
+
+(** against the series [o] (the model's, or the specification's) *)
+Definition cmd_agrees (with_sums : bool) (o : outcomeS) (c : cmdobs) : bool :=
+  match o with
+  | OSok l =>
+      (cm_exit c =? 0)%Z
+      && match cm_out c, cm_libsums c with
+         | Some pl, Some ss =>
+             (negb with_sums || sums_shape_ok l ss)
+             && list_eqb (pseries_eqb with_sums) (project_all l ss) pl
+         | _, _ => false
+         end
+  | OSerr => negb (cm_exit c =? 0)%Z
+  | OSpanic => false
+  end.
+
+Definition cmd_corr (rs : list res) (c : cmdobs) : bool :=
+  if cm_ji c then true
+  else if wf_all rs then cmd_agrees false (model_out false rs) c else true.
+
+(** the specification clause: with the options the flags are documented to set,
+    the command's series are the declarative series of the result set
+    (DUPE_REPLACE) with the library's summaries for the flag's confidence, and
+    its JSON / CSV are the library's *)
+Definition cmd_prop (rs : list res) (c : cmdobs) : bool :=
+  if cm_ji c then cm_samejson c && cm_samecsv c
+  else if wf_all rs then
+    cmd_agrees true (spec_seriesS false rs) c && cm_samejson c && cm_samecsv c
+  else true.
+
 (** * dispatch on the case kind *)
 Definition run_case (s : sx) : N :=
   match s with
@@ -420,6 +527,13 @@ Definition run_case (s : sx) : N :=
           let wf := wf_all rs in
           code_of (series_corr rs flags runs (b64_of_bits conf) n rf && forallb (inc_corr wf rs) incs)
                   (series_prop rs runs rf && forallb (inc_prop wf rs runs rf) incs)
+      | _, _, _, _, _, _ => code_undecodable
+      end
+  | SL [SZ 5; rs; flags; runs; SZ conf; n; rf; cmd] =>
+      match as_list as_res rs, as_list as_bool flags, as_list as_run runs, as_nat n, as_refs rf, as_cmd cmd with
+      | Some rs, Some flags, Some runs, Some n, Some rf, Some cmd =>
+          code_of (series_corr rs flags runs (b64_of_bits conf) n rf && cmd_corr rs cmd)
+                  (series_prop rs runs rf && cmd_prop rs cmd)
       | _, _, _, _, _, _ => code_undecodable
       end
   | _ => code_undecodable
